@@ -118,6 +118,7 @@ type PkgSpec struct {
 	Opaque    []string
 	Callers   []*CallersRule
 	NonBlock  []*CallersRule // "nonblocking F1, F2": Allowed holds the functions
+	StoredFields []*CallersRule // "storedfields T1, T2": Allowed holds the type names
 	Axioms    []*FuncSpec
 }
 
@@ -279,6 +280,16 @@ func parseSpecFile(path string, ps *PkgSpec, trustedFile bool) error {
 				allowed = append(allowed, strings.TrimSpace(a))
 			}
 			ps.Callers = append(ps.Callers, &CallersRule{Callee: strings.TrimSpace(rest[:oi]), Allowed: allowed, Label: label, Tags: tags, File: path, Line: ln})
+			cur = nil
+		case strings.HasPrefix(t, "storedfields "):
+			// storedfields T1, T2 #label @tags   every field of the named struct types (and of the /repo struct types
+			// they contain) is exported: encoding/gob and encoding/json store exported fields only
+			text, label, tags := splitLabelTags(" " + strings.TrimPrefix(t, "storedfields "))
+			var ts []string
+			for _, a := range strings.Split(text, ",") {
+				ts = append(ts, strings.TrimSpace(a))
+			}
+			ps.StoredFields = append(ps.StoredFields, &CallersRule{Allowed: ts, Label: label, Tags: tags, File: path, Line: ln})
 			cur = nil
 		case strings.HasPrefix(t, "nonblocking "):
 			// nonblocking F1, F2 #label @tags   the functions (and what they call inside /repo) never block on a channel
